@@ -93,6 +93,9 @@ type logVerifier struct {
 	kr    bundle.KeyResolver
 	calls []string        // keys of this call
 	ok    map[string]bool // key -> accepted (this call)
+	// consume: delete what was verified from the map handed in, as the remote verifier of the
+	// machinesapi package does - a Verifier owns its argument, the cache must not rely on it afterwards
+	consume bool
 }
 
 func (v *logVerifier) Verify(ctx context.Context, dbp map[bundle.Macaroon][]bundle.Macaroon) map[bundle.Macaroon]bundle.VerificationResult {
@@ -105,6 +108,13 @@ func (v *logVerifier) Verify(ctx context.Context, dbp map[bundle.Macaroon][]bund
 			v.ok[k] = true
 		}
 		ret[perm] = res
+	}
+	if v.consume {
+		for perm, res := range ret {
+			if _, isOK := res.(*bundle.VerifiedMacaroon); isOK {
+				delete(dbp, perm)
+			}
+		}
 	}
 	return ret
 }
@@ -408,7 +418,10 @@ func (w *bWorld) cacheEpisode(hookable bool, probe bool) {
 		}
 		return wd
 	}
-	inner := &logVerifier{kr: w.resolver(), ok: map[string]bool{}}
+	inner := &logVerifier{kr: w.resolver(), ok: map[string]bool{}, consume: w.r.Chance(1, 3)}
+	if inner.consume {
+		w.o.count("inner.consumesItsArgument")
+	}
 	vc := bundle.NewVerificationCache(inner, ttl, size)
 	mirror := map[string]bool{}   // keys the model's store holds
 	successAt := map[string]int{} // key -> step of the last accepted inner call (or insertion)
